@@ -103,7 +103,7 @@ func stdDecode(format string, data []byte) ([]byte, error) {
 }
 
 func suiteCodecs(r *rng, n int) {
-	var kept []keptStream
+	var kept, keptDec []keptStream
 	for i := 0; i < n && !codecsAbort; i++ {
 		cr := r.fork(uint64(i))
 		body, cls := codecBody(cr)
@@ -187,6 +187,20 @@ func suiteCodecs(r *rng, n int) {
 					res = "mismatch"
 				}
 				emit("codecs", "dec", f, "0", hx(cls), itoa(int64(len(body))), "=>", res)
+				// what EARLIER decoder calls returned is kept by the caller (a cached raw body): still intact?
+				for _, k := range keptDec {
+					kres := "ok"
+					if !bytes.Equal(k.data, k.body) {
+						kres = "retained"
+					}
+					emit("codecs", "dec", k.format, "0", hx(k.cls), itoa(int64(len(k.body))), "=>", kres)
+				}
+				if res == "ok" && len(body) > 0 {
+					keptDec = append(keptDec, keptStream{f, 0, cls, body, d})
+					if len(keptDec) > 4 {
+						keptDec = keptDec[len(keptDec)-4:]
+					}
+				}
 			}
 			stat("dec")
 		case 2: // lz4 blocks
@@ -265,6 +279,22 @@ func suiteCodecs(r *rng, n int) {
 				default:
 					data = append(data[:cr.intn(len(data))], cr.bytes(cr.intn(20))...)
 				}
+			}
+			if cr.chance(12) {
+				// hand-made headers that DECLARE a huge decoded size in front of little or no data
+				switch cr.intn(3) {
+				case 0: // zstd frame: magic, descriptor with an 8-byte frame content size, the size, a few bytes
+					f = "zst"
+					data = append([]byte{0x28, 0xb5, 0x2f, 0xfd, 0xe0}, []byte{0xff, 0xff, 0xff, 0xff, 0xff, 0xff, 0xff, byte(0x7f - cr.intn(2))}...)
+					data = append(data, cr.bytes(cr.intn(12))...)
+				case 1: // snappy block: uvarint length close to 2^32
+					f = "snz"
+					data = append([]byte{0xff, 0xff, 0xff, 0xff, 0x0f}, cr.bytes(cr.intn(12))...)
+				default: // zstd with a 4-byte size field
+					f = "zst"
+					data = append([]byte{0x28, 0xb5, 0x2f, 0xfd, 0xa0, 0xff, 0xff, 0xff, 0xff}, cr.bytes(cr.intn(12))...)
+				}
+				stat("mut-declared-size")
 			}
 			_, res := guarded(func() ([]byte, error) { return srv.Decompress(f, data) })
 			emit("codecs", "mut", f, "0", hx(cls), itoa(int64(len(data))), "=>", res)
